@@ -292,6 +292,31 @@ def session_job(case):
         ws.rmws(w); ws.rmws(w2)
 
 
+def split_job(job):
+    sc, plan, threads = job
+    w1, w2 = ws.mkws('spl'), ws.mkws('sgl')
+    try:
+        opts = [('-R' if pt.get('rev') else '') for pt in sc['series']]
+        scen.materialise(w1, sc['tree0'], sc['series'], opts)
+        scen.materialise(w2, sc['tree0'], sc['series'], opts)
+        last = None
+        for goal in plan:
+            rc, so, se = ws.push(w1, goal + ['-q', '--threads', threads])
+            if ws.crashed(rc):
+                return [('crash', 'push %s exits with %s: %s' % (goal, rc, se[-150:]))]
+            last = rc
+        rc2, so2, se2 = ws.push(w2, ['-a', '-q', '--threads', 1])
+        a, b = observable(ws.snapshot(w1)), observable(ws.snapshot(w2))
+        probs = []
+        if a != b:
+            probs.append(('result', 'differing paths %s' % sorted(p for p in set(a) | set(b) if a.get(p) != b.get(p))))
+        if last != rc2:
+            probs.append(('exit', 'last exit status %s vs %s' % (last, rc2)))
+        return probs
+    finally:
+        ws.rmws(w1); ws.rmws(w2)
+
+
 def check_c09(prop, tier):
     res = Result(prop, tier)
     work = scratch(prop)
@@ -305,6 +330,27 @@ def check_c09(prop, tier):
         for c, probs in zip(cases, outs):
             for cat, msg in probs:
                 res.violation(cat, 'consecutive pushes do not compose: ' + msg, {'failing_patch': c['fail'], 'plan': c['plan'], 'model_expects': c['expect']})
+        # any split of a push of a richer series (creates, deletes, renames, mode changes, -R, failures) equals the single push
+        import p_tool
+        out, st2 = p_tool.enumerate_scenarios(res, 'split-scenarios', 'TreesSmall', 'FALSE', 3, 'Cfgs_one', work, 'FALSE')
+        lines = [l for l in open(out, errors='replace') if l.startswith('"{')]
+        os.unlink(out)
+        pick = rnd.sample(lines, min(len(lines), 1500 if tier == 'quick' else 15000))
+        sjobs = []
+        for li, line in enumerate(pick):
+            sc = json.loads(json.loads(line))
+            if sc['outs'][0]['out']['adversarial']:
+                continue
+            sjobs.append((sc, [['1'], ['-a']] if li % 3 == 0 else ([['2'], ['-a']] if li % 3 == 1 else [['1'], ['1'], ['-a']]), 1 + li % 2))
+        with Pool(12) as pool:
+            souts = pool.map(split_job, sjobs, chunksize=8)
+        nb = 0
+        for (sc, plan, threads), probs in zip(sjobs, souts):
+            for cat, msg in probs:
+                nb += 1
+                res.violation('split:' + cat, 'a push split into %s differs from the single push -a: %s' % (plan, msg), {'tree0': sc['tree0'], 'series': sc['series'], 'plan': plan, 'threads': threads})
+        res.cov['parts']['split-scenarios'].update({'scenarios': len(sjobs), 'bad': nb})
+        res.cov['traces_validated_against_impl'] += len(sjobs)
         ninv = sum(len(c['plan']) for c in cases)
         res.cov['parts']['sessions'] = {'sessions': len(cases), 'invocations': ninv, 'with_failure': sum(1 for c in cases if c['fail']),
                                         'with_noop_or_refusal': sum(1 for c in cases if 1 in c['expect']['exits'] or c['expect']['applied'] == 4)}
